@@ -593,7 +593,7 @@ class C08Check(PCheck):
     def budgets(self, tier):
         if tier == 'thorough':
             return {'runs': 6000, 'determinism': 60, 'wall': 3300, 'workers': 32}
-        return {'runs': 260, 'determinism': 12, 'wall': 900, 'workers': 32}
+        return {'runs': 260, 'determinism': 12, 'wall': 1800, 'workers': 32}
 
     def generate(self, rng, run_index, tier):
         sc = super().generate(rng, run_index, tier)
@@ -702,7 +702,7 @@ class C03Check(PCheck):
     def budgets(self, tier):
         if tier == 'thorough':
             return {'runs': 6000, 'determinism': 60, 'wall': 3300, 'workers': 32}
-        return {'runs': 260, 'determinism': 12, 'wall': 900, 'workers': 32}
+        return {'runs': 260, 'determinism': 12, 'wall': 1800, 'workers': 32}
 
 
 CHECK_C08 = core.register(C08Check())
@@ -726,7 +726,7 @@ class C07PCheck(PCheck):
     def budgets(self, tier):
         if tier == 'thorough':
             return {'runs': 5000, 'determinism': 40, 'wall': 3000, 'workers': 32}
-        return {'runs': 300, 'determinism': 10, 'wall': 900, 'workers': 32}
+        return {'runs': 300, 'determinism': 10, 'wall': 1800, 'workers': 32}
 
 
 class C02PCheck(PCheck):
@@ -893,7 +893,7 @@ class C11Check(PCheck):
     def budgets(self, tier):
         if tier == 'thorough':
             return {'runs': 1500, 'determinism': 16, 'wall': 3300, 'workers': 12}
-        return {'runs': 110, 'determinism': 5, 'wall': 900, 'workers': 12}
+        return {'runs': 110, 'determinism': 5, 'wall': 1800, 'workers': 12}
 
     def generate(self, rng, run_index, tier):
         seed = int(os.environ.get('VERIF_SEED', '0') or 0)
@@ -1082,7 +1082,7 @@ class C17Check(PCheck):
     def budgets(self, tier):
         if tier == 'thorough':
             return {'runs': 6000, 'determinism': 60, 'wall': 3300, 'workers': 32}
-        return {'runs': 300, 'determinism': 10, 'wall': 900, 'workers': 32}
+        return {'runs': 300, 'determinism': 10, 'wall': 1800, 'workers': 32}
 
 
 CHECK_C17 = core.register(C17Check())
